@@ -27,11 +27,12 @@ def drain(u):
     8 = watchdog (more yields than the buffer can hold), 9 = any other exception."""
     frames = []
     cap = len(u.buf) // 5 + 2
+    it = iter(u)                 # the iteration protocol, as every caller in the library uses it (`for op, data in unpacker`)
     while True:
         if len(frames) > cap:
             return frames, 8, 'watchdog: more frames than bytes/5'
         try:
-            op, data = u.unpack()
+            op, data = next(it)
         except StopIteration:
             return frames, 0, None
         except ProtocolException as e:
